@@ -7,6 +7,7 @@ import (
 	"fmt"
 	"io"
 	"io/ioutil"
+	"math"
 	"net/http"
 	"path"
 	"strconv"
@@ -603,7 +604,13 @@ func contextFromHeaders(parent context.Context, h http.Header) (context.Context,
 				unit = time.Nanosecond
 			}
 			if unit != 0 {
-				ctx, cancel = context.WithTimeout(ctx, time.Duration(timeoutVal)*unit)
+				d := time.Duration(timeoutVal) * unit
+				if timeoutVal > 0 && d/unit != time.Duration(timeoutVal) {
+					// too large to represent: saturate instead of wrapping
+					// around to an arbitrary (possibly negative) duration
+					d = math.MaxInt64
+				}
+				ctx, cancel = context.WithTimeout(ctx, d)
 			}
 		}
 	}
